@@ -323,6 +323,10 @@ def run_property(pid, tier, seed):
             else:
                 rv, detail = xh.replay_concrete(w['module'], w['family'], w['sel'], w['args'], REPO, env_extra={'VERIF_NO_CARVE': '1'})
             cov['traces_validated_against_impl'] += 1
+            if rv == 'fails' and 'TypeError' in detail and ('positional argument' in detail or 'unexpected keyword' in detail) and 'harness/' in detail:
+                # the stored witness no longer matches the signature of the harness body (the harness was extended): my mistake, not a verdict
+                harness_errors.append(f'stale witness of {f["id"]}: {detail[-300:]}')
+                continue
             if f['status'] == 'known':
                 if rv == 'fails':
                     known_lines.append(f'KNOWN-FINDING: property={pid} {f["id"]}: {f["what"]}')
